@@ -79,3 +79,17 @@ Example C08_handicap_lines_example :
   let rs := [((1, -15), RsWinner); ((1, 5), RsLoser); ((2, -15), RsLoser); ((2, 5), RsRemoved)] in
   NoDup (map fst rs) /\ closed_result rs (1, -15) RsNone = RsWinner /\ closed_result rs (1, 5) RsNone = RsLoser /\ closed_result rs (2, 5) RsNone = RsRemoved /\ closed_result rs (1, 25) RsNone = RsNone.
 Proof. split; [|vm_compute; repeat split]. repeat constructor; cbn; intuition congruence. Qed.
+
+(* the profit of an order once the closing book has been processed (Settle.profit_at_close = profit with the result the lookup gives): it is the profit
+   under the result of the runner on the order's own line, the other lines of the book are irrelevant to it, and an order of an odds market on a line
+   the book does not list makes nothing and loses nothing *)
+Theorem C08_profit_at_close : forall tb rs k r s, NoDup (map fst rs) -> In (k, r) rs -> profit_at_close tb rs k s = profit tb (with_result s r).
+Proof. exact profit_at_close_listed. Qed.
+Print Assumptions C08_profit_at_close.
+Theorem C08_profit_at_close_ignores_other_lines : forall tb rs k s,
+  profit_at_close tb rs k s = profit_at_close tb (filter (fun x => runner_key_eqb k (fst x)) rs) k s.
+Proof. exact profit_at_close_own_line. Qed.
+Print Assumptions C08_profit_at_close_ignores_other_lines.
+Theorem C08_profit_at_close_unlisted_line : forall tb rs k s, ~ In k (map fst rs) -> st_line s = false -> 0 < st_dead s -> 0 < st_div_n s -> profit_at_close tb rs k s = 0.
+Proof. exact profit_at_close_unlisted. Qed.
+Print Assumptions C08_profit_at_close_unlisted_line.
